@@ -218,10 +218,10 @@ func Check(tr *Trace, w Which) ([]Finding, Classes) {
 				switch {
 				case hd.complete || len(tmp) > h.MaxInFlight:
 					must = true
-				case st.A > cr[1]+T:
+				case st.A > satAdd(cr[1], T):
 					must = true
 					cl.Expired++
-				case st.B < cr[0]+T:
+				case st.B < satAdd(cr[0], T):
 					mustNot = true
 					cl.Fresh++
 				default:
@@ -484,4 +484,16 @@ func equalInts(a, b []int) bool {
 		}
 	}
 	return true
+}
+
+// satAdd adds a timeout to a monotonic reading without wrapping (timeouts up to +-2^63-1 ns are legal).
+func satAdd(a, b int64) int64 {
+	c := a + b
+	if a > 0 && b > 0 && c < 0 {
+		return 1<<63 - 1
+	}
+	if a < 0 && b < 0 && c >= 0 {
+		return -1 << 63
+	}
+	return c
 }
